@@ -399,7 +399,38 @@ class World:
         elif op == 'ci':
             self.declare_cls(c, ifs)
             ctx.op(op, c.__name__, nm(ifs))
-            if ifs and rng.random() < 0.15:
+            outside = [i for i in self.ifaces if i not in self.cbound(c, 'U')]
+            if ifs and outside and rng.random() < 0.1:
+                # while the declaration is being announced, one of those told creates a new instance of the class and
+                # declares something on it (a new dependent of the class's specification appears in the middle of the
+                # notification): everybody else is told all the same, and the newcomer is right as well
+                x_ = rng.choice(outside)
+                born = []
+                world = self
+
+                class Breeder:
+                    armed = True
+
+                    def changed(self_, originally_changed):
+                        if self_.armed:
+                            self_.armed = False
+                            o_ = c()
+                            directlyProvides(o_, x_)
+                            born.append(o_)
+                br = Breeder()
+                implementedBy(c).subscribe(br)
+                try:
+                    classImplements(c, *ifs)
+                finally:
+                    implementedBy(c).unsubscribe(br)
+                for o_ in born:
+                    o_.zname = 'o%d' % len(self.objs)
+                    self.objs.append(o_)
+                    self.M[id(o_)] = [x_]
+                    self.Y[id(o_)] = [x_]
+                    ctx.op('newobj-during-notification', o_.zname, c.__name__, nm([x_]))
+                ctx.count('declarations_during_which_a_new_dependent_appeared')
+            elif ifs and rng.random() < 0.15:
                 classImplements(c, (x for x in ifs))
                 ctx.count('declarations_from_one_shot_iterables')
             elif rng.random() < 0.12:
